@@ -106,7 +106,100 @@ class TmpVar(ast.NodeTransformer):
         return node
 
 
-T = {"unparse": None, "rename": Rename, "flipif": FlipIf, "noop": Noop, "reorder": Reorder, "tmpvar": TmpVar}
+class Elseify(ast.NodeTransformer):
+    """if c: ...return/raise;  rest   ->   if c: ...return/raise  else: rest      (pylint's no-else-return, reversed)"""
+
+    def _blk(self, body):
+        for i, st in enumerate(body):
+            if isinstance(st, ast.If) and not st.orelse and st.body and isinstance(st.body[-1], (ast.Return, ast.Raise)) \
+                    and i + 1 < len(body):
+                st.orelse = self._blk(body[i + 1:])
+                return body[:i + 1]
+        return body
+
+    def generic_visit(self, node):
+        super().generic_visit(node)
+        for f in ("body", "orelse", "finalbody"):
+            b = getattr(node, f, None)
+            if isinstance(b, list) and b and isinstance(b[0], ast.stmt) and not isinstance(node, (ast.For, ast.While)):
+                setattr(node, f, self._blk(b))
+        return node
+
+
+class DeElse(ast.NodeTransformer):
+    """if c: ...return/raise  else: rest   ->   if c: ...return/raise;  rest      (pylint's no-else-return)"""
+
+    def _blk(self, body):
+        out = []
+        for st in body:
+            out.append(st)
+            if isinstance(st, ast.If) and st.orelse and st.body and isinstance(st.body[-1], (ast.Return, ast.Raise)) and \
+                    not (len(st.orelse) == 1 and isinstance(st.orelse[0], ast.If) and False):
+                rest = st.orelse
+                st.orelse = []
+                out.extend(self._blk(rest))
+        return out
+
+    def generic_visit(self, node):
+        super().generic_visit(node)
+        for f in ("body", "orelse", "finalbody"):
+            b = getattr(node, f, None)
+            if isinstance(b, list) and b and isinstance(b[0], ast.stmt):
+                setattr(node, f, self._blk(b))
+        return node
+
+
+class CmpSwap(ast.NodeTransformer):
+    """a == b -> b == a,  a != b -> b != a,  a < b -> b > a ...   (single comparisons of side-effect-free operands)"""
+    M = {ast.Eq: ast.Eq, ast.NotEq: ast.NotEq, ast.Lt: ast.Gt, ast.Gt: ast.Lt, ast.LtE: ast.GtE, ast.GtE: ast.LtE}
+
+    def visit_Compare(self, node):
+        self.generic_visit(node)
+        if len(node.ops) == 1 and type(node.ops[0]) in self.M and not any(isinstance(x, ast.Call) for x in ast.walk(node)):
+            return ast.Compare(left=node.comparators[0], ops=[self.M[type(node.ops[0])]()], comparators=[node.left])
+        return node
+
+
+class TmpArgs(ast.NodeTransformer):
+    """f(g(x), y)  ->  _a0 = g(x); f(_a0, y)   for call-valued positional arguments of calls that are a whole statement
+    (expression statement or the value of a plain assignment); evaluation order is preserved"""
+
+    def _blk(self, body):
+        out = []
+        for st in body:
+            call = None
+            if isinstance(st, ast.Expr) and isinstance(st.value, ast.Call):
+                call = st.value
+            elif isinstance(st, ast.Assign) and isinstance(st.value, ast.Call):
+                call = st.value
+            if call is not None and not any(isinstance(a, ast.Starred) for a in call.args):
+                # the callee expression is evaluated first: only plain names / attribute chains of names are safe
+                fn = call.func
+                while isinstance(fn, ast.Attribute):
+                    fn = fn.value
+                if isinstance(fn, ast.Name):
+                    k = 0
+                    for i, a in enumerate(call.args):
+                        if isinstance(a, (ast.Call, ast.BinOp)) and not any(isinstance(x, (ast.Lambda, ast.Yield, ast.Await, ast.NamedExpr)) for x in ast.walk(a)):
+                            nm = f"_a{k}"
+                            k += 1
+                            out.append(ast.Assign(targets=[ast.Name(id=nm, ctx=ast.Store())], value=a, lineno=st.lineno))
+                            call.args[i] = ast.Name(id=nm, ctx=ast.Load())
+                        elif not isinstance(a, (ast.Name, ast.Constant, ast.Attribute)):
+                            break  # a later argument must not be evaluated before this one
+            out.append(st)
+        return out
+
+    def generic_visit(self, node):
+        super().generic_visit(node)
+        for f in ("body", "orelse", "finalbody"):
+            b = getattr(node, f, None)
+            if isinstance(b, list) and b and isinstance(b[0], ast.stmt):
+                setattr(node, f, self._blk(b))
+        return node
+
+
+T = {"unparse": None, "rename": Rename, "flipif": FlipIf, "noop": Noop, "reorder": Reorder, "tmpvar": TmpVar, "elseify": Elseify, "deelse": DeElse, "cmpswap": CmpSwap, "tmpargs": TmpArgs}
 
 
 def transform(root, name):
@@ -134,7 +227,10 @@ def run(prop, root, evd):
     keys = sorted(l.split("key=")[-1].strip() for l in r.stdout.splitlines() if "key=" in l and not l.startswith("KNOWN"))
     known = sorted(l for l in r.stdout.splitlines() if l.startswith("KNOWN-FINDING"))
     err = [l for l in r.stdout.splitlines() if "ANALYSIS-ERROR" in l]
-    return prop, r.returncode, keys, len(known), err
+    import re
+    m = re.search(r"(\d+) obligations over (\d+) rules, .* (\d+) not analysed", r.stdout)
+    stat = tuple(int(x) for x in m.groups()) if m else None
+    return prop, r.returncode, keys, len(known), err, stat
 
 
 def main():
@@ -153,7 +249,9 @@ def main():
                 print("kept", tmp)
             with cf.ThreadPoolExecutor(8) as ex:
                 res = list(ex.map(lambda p: run(p, tmp, os.path.join(tmp, "ev")), props))
-            for prop, rc, keys, nk, err in res:
+            for prop, rc, keys, nk, err, stat in res:
+                if stat != base[prop][5]:
+                    print(f"[{nm}] {prop} obligations/rules/not-analysed {stat} (baseline {base[prop][5]})")
                 if rc != 0 or nk != base[prop][3]:
                     bad += 1
                     print(f"[{nm}] {prop} rc={rc} known={nk} (baseline {base[prop][3]})")
